@@ -279,10 +279,8 @@ class C05Monitor(Monitor):
         if len(pt) == a.N and not self._inside(a, pt):
             w.flag(self.prop, "result_outside_box", "%s: %s returned point %r outside [%r, %r]" % (a.aid, kind, pt, a.lower, a.upper), kind)
         refined = kind == "refine" or (kind == "solve" and a.params.get("refineSolution"))
-        if outcome.get("raised") or a.fired_faults:
-            # a refinement that was interrupted by an objective failure returns nothing; what the result
-            # must look like after a failure is C16's subject, not C05's
-            refined = False
+        # (also after an objective failure inside the refinement - contained by Solve or caught by the caller: whatever is
+        # reported then must still be a point with ITS value, and not worse than the best global trial)
         if refined and a.local_calls():
             self.probe["refinements"] += 1
             g = [c.value for c in a.global_calls()]
